@@ -31,10 +31,14 @@ TNext == /\ l <= NLines
             IF e.c = "NEW" THEN cfg' = e /\ mem' = InitMem(e) /\ st' = InitStreams /\ bad' = bad /\ early' = <<>>
             ELSE
             LET tag(x) == <<l, cfg.tid>> \o x
-                isStream == e.c \in {"CMD", "WDATA", "RDATA"}
+                \* nocross: a width converter sits between the two sides (get_port(clock_domain=, data_width=)); only the user-side
+                \* memory semantics and acceptance of every planned command are judged
+                cross == ~("nocross" \in DOMAIN cfg /\ cfg.nocross)
+                isEv == e.c \in {"CMD", "WDATA", "RDATA"}
+                isStream == cross /\ isEv
                 sr == IF ~isStream THEN [s |-> st, bad |-> {}]
                       ELSE IF IsPush(e) THEN StreamPush(st, Chan(e), Val(e)) ELSE StreamPop(st, Chan(e), Val(e))
-                useMem == cfg.memsem /\ ((isStream /\ e.s = "u") \/ e.c \in {"DUMP", "END"})
+                useMem == cfg.memsem /\ ((isEv /\ e.s = "u") \/ e.c \in {"DUMP", "END"})
                 isEarly == useMem /\ e.c = "WDATA" /\ mem.wq[0] = <<>>
                 m1 == IF useMem /\ ~isEarly THEN MemStep(cfg, mem, UserEv(e)) ELSE [s |-> mem, bad |-> {}]
                 bindEarly == useMem /\ e.c = "CMD" /\ e.we /\ early # <<>>
@@ -44,8 +48,9 @@ TNext == /\ l <= NLines
                 extra == CASE e.c = "WDROP" -> {<<"write word not at the crossing output when the memory side strobed it (late or lost)">>}
                            [] e.c = "RDROP" -> {<<"read word refused by the crossing (overflow): word lost">>}
                            [] e.c = "END" -> StreamEnd(sr.s) \cup
-                                  (IF "planned" \in DOMAIN e /\ e.planned > sr.s["cmd"].npush
-                                   THEN {<<"command offered on the user port but never accepted", e.planned - sr.s["cmd"].npush>>} ELSE {})
+                                  (LET acc == IF cross THEN sr.s["cmd"].npush ELSE e.accepted IN
+                                   IF "planned" \in DOMAIN e /\ e.planned > acc
+                                   THEN {<<"command offered on the user port but never accepted", e.planned - acc>>} ELSE {})
                            [] OTHER -> {}
             IN /\ cfg' = cfg /\ st' = sr.s /\ mem' = mr.s
                /\ early' = IF isEarly THEN Append(early, UserEv(e)) ELSE IF bindEarly THEN Tail(early) ELSE early
